@@ -395,3 +395,129 @@ REGISTRY['C18'] = run_print
 
 import c19
 REGISTRY['C19'] = c19.run_c19
+
+# ---------------------------------------------------------------- C20: mocked coroutines
+
+def _norm_coro(raw, norm):
+    n = 0
+    with open(raw) as f, open(norm, 'w') as g:
+        for line in f:
+            try:
+                d = json.loads(line)
+            except Exception:
+                continue
+            e = d['e']
+            if e == 'seg':
+                o = dict(e='Seg', id=d['id'])
+            elif e == 'endseg':
+                o = dict(e='EndSeg', id=d['id'], exit=d['exit'], sig=d['sig'], san=d['san'][:300])
+            elif e == 'fin':
+                o = dict(e='Fin')
+            elif e == 'terminate':
+                o = dict(e='Terminate')
+            else:
+                reps = []
+                for r in d['reps']:
+                    m = r['msg']
+                    kind = ('nomatch' if m.startswith('No match for call') else 'unfulfilled' if m.startswith('Unfulfilled expectation')
+                            else 'forbidden' if m.startswith('Match of forbidden') else 'other')
+                    reps.append(dict(sev=r['sev'], kind=kind))
+                o = dict(e=e, a=d['a'], skip=d['skip'], acc=d['acc'], thr=d['thr'], reps=reps, noks=d['noks'], cl=d['cl'], ist=d['ist'], fl=d['fl'])
+            g.write(json.dumps(o, separators=(',', ':')) + '\n'); n += 1
+    return n
+
+def run_coro(prop, tier, seed, t0):
+    import subprocess, gen_coro
+    import concurrent.futures as cf
+    work = os.path.join(lib.BUILD, 'work-%s-%d' % (prop, os.getpid()))
+    shutil.rmtree(work, ignore_errors=True); os.makedirs(work)
+    rp = os.path.join(lib.BUILD, 'replay'); os.makedirs(rp, exist_ok=True)
+    nviol, out_lines, skip = 0, [], set()
+    known = lib.load_known()
+    # 1. documented legal forms must compile
+    prs = gen_coro.probes()
+    jobs = []
+    for i, (k, r, desc, stmt) in enumerate(prs):
+        src = os.path.join(work, 'p%d.cpp' % i)
+        open(src, 'w').write('#include "crt.hpp"\nusing namespace cdrv;\nvoid probe_f() { %s }\n' % stmt)
+        jobs.append((['g++', '-std=c++20', '-fsyntax-only', '-I' + lib.INCLUDE, '-I' + os.path.join(lib.HARNESS, 'corodrv'),
+                      '-I' + os.path.join(lib.HARNESS, 'coro'), src], work))
+    for (k, r, desc, stmt), (rc, out) in zip(prs, lib.compile_many(jobs)):
+        if rc != 0:
+            skip.add((k, r))
+            v = dict(field='compile', prop='C20', got=desc)
+            ks = [kf for kf in known.get('open', []) if known_match(kf, prop, v, [])]
+            if ks:
+                continue
+            path = os.path.join(rp, 'C20-compile-kind%d-retk%d.txt' % (k, r))
+            open(path, 'w').write('documented legal form does not compile: %s\n%s\n\n%s\n' % (desc, stmt, out[-3000:]))
+            if not any(path in l for l in out_lines):
+                out_lines.append('VIOLATION property=C20 replay=%s' % path); nviol += 1
+    for kf in known.get('open', []):
+        if 'C20' in kf.get('property', []) and kf.get('match', {}).get('field') == 'compile' and any(kf['match'].get('got_contains', '\0') in p[2] for p in prs if (p[0], p[1]) in skip):
+            print('KNOWN-FINDING: property=C20 %s (%s)' % (kf['id'], kf['what']))
+    d = lib.build_coro(tuple(sorted(skip)))
+    # 2. conformance
+    nseg = 600 if tier == 'quick' else 12000
+    segs = gen_scripts.gen_coro_segments(nseg, seed, skip) + fixed_segments('C20')
+    by_id = dict(segs)
+    nch = lib.NCPU
+    chunks = [segs[i::nch] for i in range(nch)]
+    env = dict(os.environ); env.update(lib.SAN_ENV)
+    def one(i):
+        if not chunks[i]:
+            return dict(viol=[], events=0)
+        script = os.path.join(work, 'c%d.script' % i); raw = os.path.join(work, 'c%d.raw' % i); norm = os.path.join(work, 'c%d.ndjson' % i)
+        gen_scripts.write_script(script, chunks[i])
+        p = subprocess.run(['timeout', '900', os.path.join(d, 'drv_coro'), script, raw], env=env, stdout=subprocess.PIPE, stderr=subprocess.STDOUT, text=True)
+        if p.returncode != 0:
+            return dict(error='driver rc=%d %s' % (p.returncode, p.stdout[-400:]))
+        n = _norm_coro(raw, norm)
+        r = lib.validate_generic('TraceCoro.tla', 'TraceCoro.cfg', norm, work, 'v%d' % i)
+        r['events'] = n
+        return r
+    with cf.ThreadPoolExecutor(lib.NCPU) as ex:
+        res = list(ex.map(one, range(nch)))
+    errs = [r['error'] for r in res if 'error' in r]
+    if errs:
+        print('CHECK-ERROR property=C20 %s' % errs[0][:2000]); return 2
+    viols = [v for r in res for v in r['viol']]
+    by_seg = {}
+    for v in viols:
+        v.setdefault('prop', 'C20 C14')
+        ks = [kf for kf in known.get('open', []) if known_match(kf, prop, v, by_id.get(v['seg'], []))]
+        if ks:
+            print('KNOWN-FINDING: property=C20 %s (%s; segment %s)' % (ks[0]['id'], ks[0]['what'], v['seg']))
+            continue
+        by_seg.setdefault(v['seg'], []).append(v)
+    for sid, vs in list(by_seg.items())[:10]:
+        path = replay_file('C20', sid, by_id.get(sid, []), vs, 'replay with: build/coro-*/drv_coro <this file> out.ndjson')
+        out_lines.append('VIOLATION property=C20 replay=%s' % path); nviol += 1
+    nviol += max(0, len(by_seg) - 10)
+    mc = run_mc('MCCoro', tier, work)
+    if mc.get('error'):
+        print('CHECK-ERROR property=C20 model checking: %s' % mc['error'][:2000]); return 2
+    if mc.get('violated'):
+        path = os.path.join(rp, 'C20-model.txt'); open(path, 'w').write(mc['output'])
+        out_lines.append('VIOLATION property=C20 replay=%s' % path); nviol += 1
+    for l in out_lines:
+        print(l)
+    events = sum(r.get('events', 0) for r in res)
+    nontriv = len({seg_hash(ops) for sid, ops in segs if sum(1 for o in ops if o.startswith('resume')) >= 2 and any(o.startswith('ccall') for o in ops)})
+    cov = dict(states=mc.get('distinct', 0), transitions=mc.get('generated', 0), traces_validated_against_impl=len(segs), events=events,
+               evaluations=len(segs), distinct_nontrivial=nontriv,
+               rule='seeded random op scripts over {create coroutine expectation (5 coroutine kinds, 0..3 CO_YIELD, CO_RETURN / CO_THROW / throwing clause), call, resume, destroy instance, release}; '
+                    'non-trivial = distinct script with a call and >= 2 resumptions; legal clause combinations are compile-probed first',
+               samples=[dict(segment=s, ops=o[:30]) for s, o in segs[:2]], model_checking=mc.get('summary', {}), exhaustive=False,
+               sanitizers='ASan (detect_stack_use_after_return=1) + UBSan, C++20', probes=len(prs), tree=lib.tree_hash())
+    if not mc.get('distinct'):
+        cov.pop('states'); cov.pop('transitions')
+    lib.write_evidence(prop, tier, seed, 'model_checking', cov, time.time() - t0, nviol,
+                       ['mock functions of arity 0 only (known finding D12: clauses evaluated after the call returned read the dead parameter tuple for arity >= 1)',
+                        'an expectation is not released while coroutines it produced are unfinished (proviso of the property)',
+                        "own minimal coroutine types (harness/coro/mini_coro.hpp): eager/lazy value task with yield_value, lazy generator (input range), eager/lazy void task"])
+    shutil.rmtree(work, ignore_errors=True)
+    log('C20 %s: %d segments, %d events, %d violations, mc=%s, %.0fs' % (tier, len(segs), events, nviol, mc.get('summary'), time.time() - t0))
+    return 1 if nviol else 0
+
+REGISTRY['C20'] = run_coro
